@@ -182,6 +182,10 @@ class Interp:
             return env[id(e.operands[-1])]
         ops = [env[id(o)] for o in e.operands]
         if k == "complex":
+            a, b = np.asarray(ops[0]), np.asarray(ops[1])
+            if a.dtype != b.dtype:  # the parts of a complex value share one type (the wider one)
+                t = np.result_type(a.dtype, b.dtype)
+                return Cx(a.astype(t), b.astype(t))
             return Cx(ops[0], ops[1])
         if k == "real":
             return ops[0].re if isinstance(ops[0], Cx) else ops[0]
